@@ -1633,3 +1633,57 @@ Proof.
       match goal with |- context [put_sess h (mp_owner p) ?s1] => apply (Own3 (N.eqb (mp_reply p) 2) s1 (SMedia 2 (mp_pubof p)) eq_refl) end.
       unfold toks. cbn [s_pubs s_subs sess_media]. unfold sub_get in Hslot. rewrite (pset_new _ _ _ Hslot), map_app. cbn. rewrite !in_app_iff. cbn. auto.
 Qed.
+
+Lemma reachable_intro limits gated ops h :
+  h = run (init limits gated) ops \/ h = qrun (init limits gated) ops -> reachable h.
+Proof. intros H. exists limits, gated, ops. exact H. Qed.
+
+(* ------------------------------------------------------------------ the statements are not vacuous *)
+(* one client, authenticated, offers audio + video *)
+Definition ex_ops : list op := [OConnect 1 0; OHello 1 (HV1 0 5 false); OMedia 1 (RSession (IdPub 1)) 0 0 3].
+Definition ex_view (h : hub) :=
+  (h_mcuopen h, map fst (h_mcupending h),
+   map (fun e => (fst e, s_pubs (snd e), s_subs (snd e), s_pubmedia (snd e), s_perms (snd e))) (h_sessions h)).
+
+Example ex_open_publisher_ungated :
+  ex_view (run (init [0] false) ex_ops) = ([1], [], [(1, [(0, 1)], [], [(1, 3)], None)]).
+Proof. vm_compute. reflexivity. Qed.
+(* gated media server: the creation is pending until the media server answers *)
+Example ex_pending_gated :
+  ex_view (run (init [0] true) ex_ops) = ([], [1], [(1, [], [], [], None)]).
+Proof. vm_compute. reflexivity. Qed.
+Example ex_open_publisher_gated :
+  ex_view (run (init [0] true) (ex_ops ++ [OMcuDone 1 true])) = ([1], [], [(1, [(0, 1)], [], [(1, 3)], None)]).
+Proof. vm_compute. reflexivity. Qed.
+Example ex_open_publisher_gated_q :
+  ex_view (qrun (init [0] true) (ex_ops ++ [OMcuDone 1 true])) = ([1], [], [(1, [(0, 1)], [], [(1, 3)], None)]).
+Proof. vm_compute. reflexivity. Qed.
+(* the room reply grants publish-audio only: the audio + video publisher is closed *)
+Example ex_revoked_on_join :
+  ex_view (run (init [0] false) (ex_ops ++ [OJoin 1 7 0 (RepOk (Some 1) 0)])) = ([], [], [(1, [], [], [(1, 3)], Some 1)]) /\
+  In (ToMcu (MClose 1)) (snd (step (run (init [0] false) ex_ops) (OJoin 1 7 0 (RepOk (Some 1) 0)))).
+Proof. vm_compute. split; [reflexivity|]. right. right. now left. Qed.
+(* two clients in the call of one room: a publisher and a subscriber; the publisher's session says
+   bye and its object is closed *)
+Definition ex_ops2 : list op :=
+  [OConnect 1 0; OHello 1 (HV1 0 5 false); OConnect 2 0; OHello 2 (HV1 0 6 false);
+   OJoin 1 7 0 (RepOk None 0); OJoin 2 7 0 (RepOk None 0); OApi 0 0 7 (AInCallAll 1);
+   OMedia 1 (RSession (IdPub 1)) 0 0 3; OMedia 2 (RSession (IdPub 1)) 1 0 0].
+Example ex_publisher_and_subscriber :
+  ex_view (qrun (init [0] false) ex_ops2) = ([1; 2], [], [(1, [(0, 1)], [], [(1, 3)], None); (2, [], [(1, 0, 2)], [], None)]) /\
+  ex_view (qrun (init [0] false) (ex_ops2 ++ [OBye 1])) = ([2], [], [(2, [], [(1, 0, 2)], [], None)]).
+Proof. vm_compute. split; reflexivity. Qed.
+
+(* "a session without any publish permission holds no publisher at all" does NOT hold: an offer
+   without audio and video (media bits 0) needs no permission, in the model as in clientsession.go
+   (IsAllowedToSend checks the m-lines of the offer).  What does hold is
+   no_publish_permission_no_media above. *)
+Definition ex_ops_nomedia : list op :=
+  [OConnect 1 0; OHello 1 (HV1 0 5 false); OJoin 1 7 0 (RepOk (Some 0) 0); OMedia 1 (RSession (IdPub 1)) 0 0 0].
+Example no_permission_no_publisher_refuted :
+  (let h := run (init [0] false) ex_ops_nomedia in
+   match get_sess h 1 with
+   | Some s => match s_perms s, s_pubs s with Some 0, _ :: _ => false | _, _ => true end
+   | None => true
+   end) = false.
+Proof. vm_compute. reflexivity. Qed.
